@@ -13,7 +13,8 @@ INFO = {
             "under every event). (b) schedules: 2 threads x collision-forced call pairs on shared objects under a line-granularity "
             "scheduler, every schedule with <=1 (quick) / <=2 (thorough) preemptions at every position; each thread's result must equal its "
             "sequential result. (c) entry points: parse on bytes/bytearray/memoryview, parse_stream at offsets 0/1/3 (value and consumed "
-            "length), parse_file; build/build_stream/build_file, for tier T1-T2 terms and extras x values. non-trivial = a call whose "
+            "length), parse_file; build/build_stream/build_file, for tier T1-T2 terms and extras x values; with a keyword context: every context-parameter slot (31 classes) x "
+            "{this.k, this._params.k} x {top level, Struct member} x keyword values x 4 inputs through all eight entry points. non-trivial = a call whose "
             "result was compared after at least one other call / under a schedule with a preemption / through a second entry point",
     "bounds": {"quick": {"repeat": 200, "history_depth": 2, "preemptions": 1}, "thorough": {"history_depth": 3, "preemptions": 2}},
     "trusted_base": ["mc/sched.py (sys.settrace line scheduler)", "the fingerprint walk in this module"],
@@ -325,6 +326,7 @@ def units(tier):
     for i in range(0, len(ts), 40):
         us.append({"kind": "entry", "from": i, "to": i + 40})
     us.append({"kind": "entry-big"})
+    us.append({"kind": "entry-kw"})
     return us
 
 
@@ -737,6 +739,62 @@ def run_entry_big(r):
     r.sample({"entry_big_sizes": scale.BIG[:2] + [70000], "shapes": 7})
 
 
+KW_VALUES = {"len": [0, 1, 2, 3], "len1": [1, 2], "mod": [2, 3], "bool": [False, True], "key": [1, 2, 3]}
+
+
+def run_entry_kw(r, only=None):
+    """the keyword context is an argument of every entry point: each class that takes a context parameter (the slot list of C05),
+    referring to a keyword at top level (this.k, this._params.k) and from inside a Struct (this._.k), under every keyword value -
+    parse / parse_stream / parse_file / bytearray / memoryview give one result, build / build_stream / build_file one byte string"""
+    from .c05 import slots, up
+    tmpdir = tempfile.mkdtemp(prefix="verif-c17kw-", dir="/var/tmp")
+    inputs = [b"\x00\x01\x02\x03\x04\x05", b"\x01\x02\x03\x00\x07\x08", b"\x02\x61\x62\x63\x00\x00", b"\x61\x61\x00\x00\x00\x00\x00\x00"]
+    try:
+        for name, mk, kind in slots():
+            for pn, P in (("this.k", ["this", "k"]), ("_params.k", ["path", ["_params", "k"]])):
+                for en, t in (("top", mk(P)), ("struct", ["Struct", [["h", G.BYTE], ["m", mk(up(P))], ["z", G.BYTE]]])):
+                    label = "%s/%s/%s" % (name, pn, en)
+                    if only is not None and label != only:
+                        continue
+                    d = T.mk(t)
+                    for kv in KW_VALUES[kind]:
+                        kw = {"k": kv}
+                        for x in inputs:
+                            r.states += 1
+                            base = do_parse(lambda: d.parse(x, **kw))
+                            fn = os.path.join(tmpdir, "in.bin")
+                            with open(fn, "wb") as f:
+                                f.write(x)
+                            variants = {"parse_stream": lambda: d.parse_stream(io.BytesIO(x), **kw), "parse_file": lambda: d.parse_file(fn, **kw),
+                                        "bytearray": lambda: d.parse(bytearray(x), **kw), "memoryview": lambda: d.parse(memoryview(x), **kw)}
+                            if name == "LazyArray":
+                                del variants["parse_file"]      # parse_file closes the file before a lazy result can be read (by design)
+                            for vn, f in variants.items():
+                                got = do_parse(f)
+                                r.case(nontrivial=base[0] == "ok", outcome="entrykw-parse", validated=1)
+                                if not same_res(got, base):
+                                    r.violation("C17/entry-point-differs/%s/kw:%s" % (vn, name), {"entrykw": label, "k": kv, "data": x},
+                                                "%s with k=%r on %s: parse gives %r, %s gives %r" % (T.show(t), kv, x.hex(), base, vn, got))
+                            if base[0] != "ok":
+                                continue
+                            v = T.denorm(base[1])
+                            bb = do_parse(lambda: d.build(v, **kw))
+                            s = io.BytesIO()
+                            bs = do_parse(lambda: (d.build_stream(v, s, **kw), s.getvalue())[1])
+                            fn2 = os.path.join(tmpdir, "out.bin")
+                            bf = do_parse(lambda: (d.build_file(v, fn2, **kw), open(fn2, "rb").read())[1])
+                            for vn, got in (("build_stream", bs), ("build_file", bf)):
+                                r.case(nontrivial=bb[0] == "ok", outcome="entrykw-build", validated=1)
+                                if got != bb:
+                                    r.violation("C17/entry-point-differs/%s/kw:%s" % (vn, name), {"entrykw": label, "k": kv, "data": x},
+                                                "%s with k=%r: build(%r) gives %r, %s gives %r" % (T.show(t), kv, v, bb, vn, got))
+    finally:
+        for f in os.listdir(tmpdir):
+            os.unlink(os.path.join(tmpdir, f))
+        os.rmdir(tmpdir)
+    r.sample({"entry_kw_slots": len(slots()), "references": 2, "embeddings": 2})
+
+
 def fresh_result(name):
     """the call in a brand-new interpreter (nothing has run before it in that process)"""
     import subprocess
@@ -777,6 +835,9 @@ def run_unit(unit, tier):
     if k == "entry-big":
         run_entry_big(r)
         return r
+    if k == "entry-kw":
+        run_entry_kw(r)
+        return r
     if k == "history":
         r.export_states = True
         run_history(unit, tier, r)
@@ -789,6 +850,9 @@ def run_unit(unit, tier):
 
 def replay(case):
     r = UnitResult()
+    if "entrykw" in case:
+        run_entry_kw(r, only=case["entrykw"])
+        return [v for v in r.violations if v["case"]["k"] == case["k"] and v["case"]["data"] == case["data"]] or r.violations
     if "entrybig" in case:
         run_entry_big(r)
         return [v for v in r.violations if v["case"]["entrybig"][0] == case["entrybig"][0]]
